@@ -117,11 +117,12 @@ def run(ctx, res):
             ti, bi = title_byline([src])
             to, bo = title_byline([out])
             # what is derived: the comment without its two-character marker, stripped of blanks (nothing more)
-            if ti != lead[0][2:].strip() or (len(lead) >= 2 and len(a) > 2 and a[1][0] == 'newline' and a[2][0] == 'comment' and bi != lead[1][2:].strip()):
+            if ti != lead[0][2:].strip() or (len(lead) >= 2 and len(a) > 2 and a[1][0] in ('newline', 'space') and a[2][0] == 'comment' and bi != lead[1][2:].strip()):
                 res.fail(key, 'title/byline derived from the header %r are %r/%r, not the comments without their markers' % (lead[:2], ti, bi), inp)
                 continue
-            # (stats takes the byline from token 2: that is the second leading comment only in the form comment NEWLINE comment)
-            if ti != to or (len(lead) >= 2 and len(a) > 2 and a[1][0] == 'newline' and a[2][0] == 'comment' and bi != bo):
+            # (stats takes the byline from token 2: that is the second leading comment only in the forms comment NEWLINE comment and
+            # block-comment BLANKS comment)
+            if ti != to or (len(lead) >= 2 and len(a) > 2 and a[1][0] in ('newline', 'space') and a[2][0] == 'comment' and bi != bo):
                 res.fail(key, 'title/byline derived by stats changed: %r/%r -> %r/%r' % (ti, bi, to, bo), inp)
 
 
